@@ -27,6 +27,13 @@ func (cr *concRun) analyse(out *ConcOutcome) {
 	if cr.auditNoCleanup != nil {
 		cr.probe[fmt.Sprintf("drain-status-at-quiescence:%d", cr.auditNoCleanup.DrainStatus)]++
 	}
+	if g, sh, nb := otter.VerifTableStats(cr.r.C); g+sh > 0 {
+		cr.probe["cache-table-growths"] += g
+		cr.probe["cache-table-shrinks"] += sh
+		if nb >= 256 {
+			cr.probe["cache-table-grew-to-256-buckets-or-more"]++
+		}
+	}
 	own := map[[2]int]bool{}
 	for _, l := range cr.r.Loads {
 		own[[2]int{l.Task, l.OpIdx}] = true
